@@ -152,6 +152,12 @@ def compare(result, ref_cells, shape, sigbase, check_values=True, stats=None, fl
             if stats is not None:
                 stats["unstable"] = stats.get("unstable", 0) + 1
             continue
+        if ref is not None and data.dtype.kind in "iu" and abs(ref.v) >= 2 ** 62:
+            # fixed-width integer overflow is outside the domain of the value properties (inputs are small lattice points;
+            # only long chains of integer products get here): the cell is not compared, and the caller is told
+            if stats is not None:
+                stats["int_overflow"] = stats.get("int_overflow", 0) + 1
+            continue
         if ref is None:
             if not mask[i]:
                 fails.append(Failure("%s|mask_lost" % sigbase, "cell %d should be missing, is %r" % (i, data[i].item())))
